@@ -156,8 +156,10 @@ class ControlClient(asyncio.Protocol):
         _LOGGER.debug("%s from %s", request, addr)
 
         for i in range(request.lost_packets):
-            if request.lost_seqno + i in self.packet_backlog:
-                packet = self.packet_backlog[request.lost_seqno + i]
+            # Sequence numbers wrap at 2^16, so must the requested range
+            seqno = (request.lost_seqno + i) % (2**16)
+            if seqno in self.packet_backlog:
+                packet = self.packet_backlog[seqno]
 
                 # Very "low level" here just because it's simple and avoids
                 # unnecessary conversions
